@@ -82,7 +82,7 @@ fn read_field_step<const L: usize>() {
     std::mem::forget(dst);
 }
 
-// @verif prop=C15 id=O15.vcf.field-step/2 tier=thorough unwind=6 timeout=1500 stubs="memchr::memchr2->first-occurrence loop (cfg(kani) source shim, documented contract); std::str::from_utf8->validator model exact on ASCII + 2-byte sequences (precondition asserted)" bound="ONE read_field step of the lazy VCF record reader from an ARBITRARY line-buffer pre-state (2 arbitrary ASCII bytes left by earlier fields) over an ARBITRARY 2-byte input in one fill_buf window (tab, CR, LF, non-UTF-8, anything; chunked delivery of symbolic bytes through str::from_utf8 does not fit: >14 GB): the bytes of earlier fields are still there afterwards -- the inductive step of 'field bounds stay inside the line buffer', which every vcf::Record accessor slices with" fns="vcf::io::reader::record::read_field"
+// @verif prop=C15 id=O15.vcf.field-step/2 tier=off off_reason="fits (passes in ~290 s; it is the run that found F23) but peaks at 13.5 GB RSS, too close to the 14 GB memory guard to be a dependable check; the 1-byte instance O15.vcf.field-step/1 decides the same step incl. the F23 case" unwind=6 timeout=1500 stubs="memchr::memchr2->first-occurrence loop (cfg(kani) source shim, documented contract); std::str::from_utf8->validator model exact on ASCII + 2-byte sequences (precondition asserted)" bound="ONE read_field step of the lazy VCF record reader from an ARBITRARY line-buffer pre-state (2 arbitrary ASCII bytes left by earlier fields) over an ARBITRARY 2-byte input in one fill_buf window (tab, CR, LF, non-UTF-8, anything; chunked delivery of symbolic bytes through str::from_utf8 does not fit: >14 GB): the bytes of earlier fields are still there afterwards -- the inductive step of 'field bounds stay inside the line buffer', which every vcf::Record accessor slices with" fns="vcf::io::reader::record::read_field"
 #[kani::proof]
 #[kani::unwind(6)]
 #[kani::stub(std::str::from_utf8, from_utf8_model)]
